@@ -374,7 +374,75 @@ def gen_classes(tier):
                                                  attributes=[('ma', 'mv')])]))
 
 
-ALL_GENS = [gen_callbacks, gen_enums, gen_records, gen_classes, gen_functions, gen_type_positions, gen_constants]
+def gen_attr_everywhere(tier):
+    """<attribute> children on every node kind at once, several per node, so that the offset-sorted attribute table has
+    to interleave fixed-area blobs (members) and variable-area blobs (signatures, arguments) of one container."""
+    def A(tag, n=2):
+        return [('%s.k%d' % (tag, i), '%s v%d <&>' % (tag, i)) for i in range(n)]
+    inst = lambda n: (I(n, 'C' + n), 'none')
+    for variant in range(3 if tier == 'thorough' else 2):
+        name = 'AE%d' % variant
+        nattr = 1 + variant
+        meths = [Method('m%d' % j, Ret(B('gint'), attributes=A('m%d.ret' % j, nattr)),
+                        [Param('p%d' % k, B('utf8'), attributes=A('m%d.p%d' % (j, k), nattr)) for k in range(2)],
+                        instance=inst(name), symbol='c_%s_m%d' % (name.lower(), j), attributes=A('m%d' % j, nattr))
+                 for j in range(3)]
+        sigs = [Signal('s%d' % j, Ret(B('none'), attributes=A('s%d.ret' % j, 1)),
+                       [Param('a', B('gint'), attributes=A('s%d.a' % j, nattr))], attributes=A('s%d' % j, nattr)) for j in range(2)]
+        vfs = [VFunc('v%d' % j, Ret(B('none')), [Param('a', B('gint'), attributes=A('v%d.a' % j, nattr))], instance=inst(name),
+                     attributes=A('v%d' % j, nattr)) for j in range(2)]
+        yield ('attr-everywhere-class-%d' % variant,
+               ClassN(name, parent='Obj', attributes=A('cls', nattr),
+                      fields=[FieldN('f0', B('gint'), attributes=A('f0', nattr)),
+                              FieldN('fcb', callback=CallbackT('fcb', Ret(), [Param('x', B('gint'), attributes=A('fcb.x', 1))])),
+                              FieldN('f1', B('utf8'), attributes=A('f1', nattr))],
+                      properties=[Prop('pa', B('gint'), attributes=A('pa', nattr)), Prop('pb', B('utf8'), attributes=A('pb', nattr))],
+                      methods=meths, signals=sigs, vfuncs=vfs,
+                      constants=[ConstN('KC', B('gint'), '1', attributes=A('kc', nattr))]))
+        rname = 'RAE%d' % variant
+        yield ('attr-everywhere-record-%d' % variant,
+               RecordN(rname, [FieldN('a', B('gint'), attributes=A('a', nattr)), FieldN('b', B('gint'), attributes=A('b', nattr))],
+                       [Method('m%d' % j, Ret(B('gint'), attributes=A('rm%d.ret' % j, nattr)),
+                               [Param('p', B('gint'), attributes=A('rm%d.p' % j, nattr))], instance=(I(rname, 'C' + rname), 'none'),
+                               symbol='c_%s_m%d' % (rname.lower(), j), attributes=A('rm%d' % j, nattr)) for j in range(3)],
+                       attributes=A('rec', nattr)))
+        yield ('attr-everywhere-fn-%d' % variant,
+               Function('fae%d' % variant, Ret(B('utf8'), attributes=A('ret', nattr)),
+                        [Param('a', B('gint'), attributes=A('a', nattr)), Param('b', B('gint')),
+                         Param('c', B('gint'), attributes=A('c', nattr))], attributes=A('fn', nattr)))
+        yield ('attr-everywhere-cb-%d' % variant,
+               CallbackT('CbAE%d' % variant, Ret(B('gint'), attributes=A('ret', nattr)),
+                         [Param('a', B('gint'), attributes=A('a', nattr))], ctype='CCbAE%d' % variant, attributes=A('cb', nattr)))
+        yield ('attr-everywhere-enum-%d' % variant,
+               EnumN('EAE%d' % variant, [Member('a', 0), Member('b', 1)], attributes=A('en', nattr),
+                     functions=[Function('q', Ret(B('guint32'), attributes=A('q.ret', nattr)), symbol='c_eae%d_q' % variant,
+                                         attributes=A('q', nattr))]))
+
+
+def gen_same_type_everywhere(tier):
+    """Each type usage in every position of ONE namespace at once (field, in, out, return, property): exercises the
+    compiler's de-duplication of type blobs across positions (an embedded fixed-size array field and a by-reference
+    parameter array of the same shape must not share one blob)."""
+    k = 0
+    for label, tf in types_menu(tier):
+        if 'len=' in label and 'len=None' not in label:
+            continue
+        if label in ('err',):
+            continue
+        name = 'ST%d' % k
+        yield ('same-type:' + label,
+               ClassN(name, parent='Obj',
+                      fields=[FieldN('f', tf())],
+                      properties=[Prop('p', tf())],
+                      methods=[Method('get', Ret(tf(), 'none'), [], instance=(I(name, 'C' + name), 'none'), symbol='c_%s_get' % name.lower()),
+                               Method('set', Ret(), [Param('v', tf())], instance=(I(name, 'C' + name), 'none'), symbol='c_%s_set' % name.lower()),
+                               Method('out', Ret(), [Param('v', tf(), direction='out', transfer='full')],
+                                      instance=(I(name, 'C' + name), 'none'), symbol='c_%s_out' % name.lower())]))
+        k += 1
+
+
+ALL_GENS = [gen_callbacks, gen_enums, gen_records, gen_classes, gen_functions, gen_type_positions, gen_constants,
+            gen_attr_everywhere, gen_same_type_everywhere]
 
 # entries every batch needs because other entries refer to them by name
 SUPPORT = ('cb-basic', 'enum-En', 'rec-Rec', 'class-Obj', 'class-ObjClass', 'iface-IfA', 'iface-IfB', 'iface-IfC', 'alias')
